@@ -29,8 +29,15 @@ theorem PTDP_header_robust (s t : PTDP.State) (h : PTDP_WF s) (e1 e2 : Nat) (he1
     simp only [List.append_assoc] at b ⊢
     exact b
 
-example : PTDP_WF { PTDP.fresh with payload := [1, 2, 3], fragment := 3, content := 4 } := by
-  simp [PTDP_WF]
+/-- non-vacuity: all hypotheses together — a header with the largest fragment code and a three-byte payload, a weight-3
+    pattern on the first word (upper byte, parity half, data half) and a weight-2 pattern on the second -/
+example : PTDP_WF { PTDP.fresh with payload := [1, 2, 3], fragment := 3, content := 4 } ∧
+    (0x800101 : Nat) < 2 ^ 24 ∧ (0x001800 : Nat) < 2 ^ 24 ∧ wt 0x800101 ≤ 3 ∧ wt 0x001800 ≤ 3 := by
+  refine ⟨by simp [PTDP_WF], by decide, by decide, by decide, by decide⟩
+
+/-- the largest length the format allows (2048) is inside the hypotheses -/
+example : PTDP_WF { PTDP.fresh with payload := List.replicate 2048 0xAA, fragment := 0, content := 15 } :=
+  ⟨by decide, by decide, by simp only [List.length_replicate]; omega⟩
 
 /-- PTFR: version, stream id, low-latency flag, offset and payload are those of the clean frame -/
 theorem PTFR_header_robust (s t : PTFR.State) (h : PTFR_WF s) (e : Nat) (he : e < 2 ^ 24) (hw : wt e ≤ 3)
@@ -43,8 +50,13 @@ theorem PTFR_header_robust (s t : PTFR.State) (h : PTFR_WF s) (e : Nat) (he : e 
       ptfr_unpack_noisy s t h 0 (by decide) wt_zero_le hL]
   · exact ptfr_unpack_noisy s t h 0 (by decide) wt_zero_le hL
 
-example : PTFR_WF { PTFR.fresh with streamid := 1, llp := true, ptdp_offset := 0x7FF, length := 2, payload := [9, 9] } := by
-  simp [PTFR_WF, PTFR.fresh]
+/-- non-vacuity: all hypotheses together — LLP flag set, the largest offset, a weight-3 pattern, and a decoder whose frame
+    length is the frame's -/
+example :
+    let s : PTFR.State := { PTFR.fresh with streamid := 1, llp := true, ptdp_offset := 0x7FF, length := 2, payload := [9, 9] }
+    let t : PTFR.State := { PTFR.fresh with length := 2, payload := [1, 2, 3], version := 3 }
+    PTFR_WF s ∧ (0x800101 : Nat) < 2 ^ 24 ∧ wt 0x800101 ≤ 3 ∧ s.payload.length ≤ t.length := by
+  refine ⟨by simp [PTFR_WF, PTFR.fresh], by decide, by decide, by simp [PTFR.fresh]⟩
 
 /-- a bit error on the wire is an XOR on the bytes; on a header word that is an XOR on its value -/
 theorem wire_xor_is_word_xor (v e : Nat) : xorBytes (beBytes 3 v) (beBytes 3 e) = beBytes 3 (v ^^^ e) :=
